@@ -45,6 +45,8 @@ def run_cells(bc, cells, config, jobs=16, chunk=None):
                         if "out" in p:
                             p["out"] = [(sets[i], prov) for i, prov in p["out"]]
                         p["roots"] = [(int(a), int(b)) for a, b in p["roots"]]
+                        if "wset" in p:
+                            p["wset"] = sorted(decode_set(p["wset"]))
                     out[c["id"]] = c
     finally:
         shutil.rmtree(tmp, ignore_errors=True)
